@@ -65,6 +65,7 @@ def generate(seed, tier):
     w = {"bind": g.choice([2, 4, 6]), "qname": g.choice([2, 4, 8]), "parse": g.choice([0, 1]), "serialize": g.choice([0, 1]), "expand": 1, "reset": g.choice([0, 0, 1]), "storebind": g.choice([0, 0, 1]), "peek": g.choice([0, 1, 2])}
     nsteps = g.randint(3, 30 if tier == "quick" else 60)
     ops = []
+    asked = []
     for i in range(nsteps):
         h = sched.randrange(nh)
         kind = g.weighted(list(w.items()))
@@ -74,9 +75,19 @@ def generate(seed, tier):
             op["ns"] = g.pick(nss)
             op["override"] = g.chance(0.6)
             op["replace"] = g.chance(0.35)
+            if asked and g.chance(0.35):
+                # aim: a namespace that an IRI asked about earlier falls into (its memoised answer must not survive the change)
+                _, iri0 = g.pick(asked)
+                cands = [n for n in nss if n and iri0.startswith(n)]
+                if cands:
+                    op["ns"] = g.pick(cands)
+                    op["override"] = True
         elif kind == "qname":
-            op["k"] = g.choice(["qname", "qname", "curie", "curie-nogen", "compute_qname", "compute_qname-nogen", "qname_strict", "normalizeUri", "n3", "n3"])
+            op["k"] = g.choice(["qname", "qname", "curie", "curie-nogen", "compute_qname", "compute_qname-nogen", "qname_strict", "qname_strict", "normalizeUri", "n3", "n3"])
             op["iri"] = g.pick(iris)
+            if asked and g.chance(0.4):
+                op["k"], op["iri"] = g.pick(asked)  # the same question again, after whatever happened in between
+            asked.append((op["k"], op["iri"]))
         elif kind == "parse":
             op["decl"] = [[g.pick(prefixes), g.pick(nss)] for _ in range(g.randint(1, 3))]
             op["style"] = g.choice(["@prefix", "PREFIX"])
